@@ -43,6 +43,25 @@ def dims_ge2_decider(cond: Any) -> Optional[bool]:
                 if l.is_Symbol or (l.is_Mul and all(a.is_Symbol or (a.is_Pow and a.exp.is_positive) for a in l.args)):
                     return False
         return None
+    if isinstance(cond, (sp.StrictGreaterThan, sp.GreaterThan, sp.StrictLessThan, sp.LessThan)):
+        # a monomial of dimensions (each >= 2) compared with the constants 1 / 2: `seq_len > 1`, `n < 2`, ...
+        def mono(e: Any) -> bool:
+            return bool(e.free_symbols) and all(s.is_integer and s.is_positive for s in e.free_symbols) and (e.is_Symbol or (e.is_Mul and all(a.is_Symbol or (a.is_Pow and a.exp.is_positive) for a in e.args)))
+
+        l, r = cond.lhs, cond.rhs
+        if mono(r) and l.is_number:
+            flip = {sp.StrictGreaterThan: sp.StrictLessThan, sp.GreaterThan: sp.LessThan, sp.StrictLessThan: sp.StrictGreaterThan, sp.LessThan: sp.GreaterThan}
+            return dims_ge2_decider(flip[type(cond)](r, l))
+        if mono(l) and r.is_number:
+            if isinstance(cond, sp.StrictGreaterThan):  # l > r: true when r < 2
+                return True if r < 2 else None
+            if isinstance(cond, sp.GreaterThan):  # l >= r
+                return True if r <= 2 else None
+            if isinstance(cond, sp.StrictLessThan):  # l < r: false when r <= 2
+                return False if r <= 2 else None
+            if isinstance(cond, sp.LessThan):  # l <= r
+                return False if r < 2 else None
+        return None
     if isinstance(cond, sp.Unequality):
         r = dims_ge2_decider(sp.Eq(cond.lhs, cond.rhs))
         return None if r is None else (not r)
@@ -240,6 +259,10 @@ def cross_entropy_schemas(tier: str) -> List[Schema]:
             ish = (N, V) if rank2 else (V,)
             tsh = (N,) if rank2 else ()
             out.append(Schema(f"cross_entropy[2d={rank2},reduction={red}]", dict(input=P("input", ish), target=P("target", tsh), reduction=red, mult=mult, ignore_index=sp.Symbol("ignore_index", integer=True))))
+    # class-probability targets: a float target of the same shape as the logits (F.cross_entropy takes both kinds)
+    for rank2 in (True, False):
+        ish = (N, V) if rank2 else (V,)
+        out.append(Schema(f"cross_entropy[2d={rank2},reduction=mean,class-probability targets]", dict(input=P("input", ish), target=P("target", ish), reduction="mean", mult=mult, ignore_index=sp.Symbol("ignore_index", integer=True))))
     return out
 
 
@@ -250,6 +273,15 @@ def mse_schemas(tier: str) -> List[Schema]:
         for red in ("mean", "sum"):
             out.append(Schema(f"mse_loss[rank={len(sh)},reduction={red}]", dict(input=P("input", sh), target=P("target", sh), reduction=red)))
     return out
+
+
+def mse_mismatch_schemas() -> List[Schema]:
+    """Shapes F.mse_loss would broadcast (with a warning): U.mse_loss must refuse them, as it documents."""
+    a = D("a")
+    return [
+        Schema("mse_loss[(a,1) predictions vs (a,) targets]", dict(input=P("input", (a, sp.Integer(1))), target=P("target", (a,)), reduction="mean")),
+        Schema("mse_loss[(a,) predictions vs (a,1) targets]", dict(input=P("input", (a,)), target=P("target", (a, sp.Integer(1))), reduction="mean")),
+    ]
 
 
 def dropout_schemas(tier: str) -> List[Schema]:
